@@ -88,8 +88,19 @@ func genC05(c *Ctx) *Plan {
 						if len(l) == 0 {
 							l = []int64{int64((node + 1) % n)}
 						}
-						p.Ops = append(p.Ops, Op{At: rt, Kind: "restart", Node: node, L: l})
-						crashed[node] = false
+						if r.chance(0.45) {
+							// same address, new node name: the old name must still be detected as failed
+							// (also by the TCP fallback ping, which the new process must not answer for it)
+							if r.chance(0.7) {
+								rt = at + 20_000_000 + r.i64n(800_000_000) // back before anybody noticed the crash
+							}
+							p.Ops = append(p.Ops, Op{At: rt, Kind: "restartas", Node: node, L: l})
+							p.P["renamed"] = 1
+							p.Cfg.DisableTcpPings = false
+						} else {
+							p.Ops = append(p.Ops, Op{At: rt, Kind: "restart", Node: node, L: l})
+							crashed[node] = false
+						}
 					}
 				}
 			}
@@ -260,6 +271,9 @@ func execC05(c *Ctx) {
 		if ok, why := converged(); !ok && !c07 && !c.Failed() && pre {
 			c.Violate("converged-then-diverged", "", "", "views diverged again on a perfect network: %s", why)
 		}
+	}
+	if p.param("renamed", 0) == 1 {
+		c.Reach("restart_under_new_name")
 	}
 	c.Res.Nontrivial = pre && len(live) >= 2 && (len(cx.cl.net.faults) > 0)
 	c.Stat("budget_ms", int64(w/time.Millisecond))
